@@ -160,7 +160,7 @@ int main(int argc, char **argv) {
 #else
     typedef SplineWorld<4, 2> W; const char *tag = "SepticSplineND<2>";
 #endif
-    BfsResult r = bfs(c, tag, [] { return std::unique_ptr<W>(new W()); }, depth);
+    BfsResult r = bfs(c, tag, [] { return std::unique_ptr<W>(new W()); }, depth, c.args.thorough() ? 4 : 3);
     note_bfs(c, tag, r, depth);
   });
 }
